@@ -541,6 +541,22 @@ def mk_therm(kind, method='tangent', dens=None):
 OBJ_NAME = {'N': 'Ni-Al binary (ordered FCC_L12, NICRAL database)', 'B': 'Al-Zr binary', 'M': 'Ni-Al-Cr ternary', 'A': 'Al-Mg-Si ternary (5 precipitate phases)', 'F': 'Fe-Cr-Ni (FCC_A1 + BCC_A2, both with mobilities)'}
 
 
+_REFS = {}
+
+
+def ref_therm(kind, method):
+    """the reference object of a kind: one per run, emptied (clearCache + curvature outputs) before EVERY reference evaluation,
+    so sharing it between sequences does not give it a history; brand-new objects are used besides it (W itself and N)"""
+    key = (vlib.REPO, kind)
+    if key not in _REFS:
+        _REFS[key] = mk_therm(kind, method)
+    R = _REFS[key]
+    R.setDrivingForceMethod(method)
+    R.setDFSamplingDensity(2000)
+    reset_ref(R)
+    return R
+
+
 def wrap_singles(th, marks, inst):
     """markers around the single-point methods, so that the events of an array call can be split per point"""
     def mk(name, orig):
@@ -828,6 +844,30 @@ def phase_set_mismatch(evW, evR):
     return [p for _, p in a] != [p for _, p in b]
 
 
+def tangent_cached_start_class(method, q, vW, vRef, mk, events):
+    """True when every point of a 'tangent' driving-force call whose value differs from the reference was solved on the
+    warmed object by the parallel-tangent local equilibrium started from the CACHED precipitate composition set (event
+    'L' on [prec] without GE, start given) and without any sampling — while the reference started from a fresh sample."""
+    if method != 'tangent' or q['name'] != 'df' or vW is None or vRef is None:
+        return False
+    try:
+        a = np.atleast_1d(np.asarray(vW[0], dtype=np.float64)); b = np.atleast_1d(np.asarray(vRef[0], dtype=np.float64))
+    except (TypeError, ValueError):
+        return False
+    dfm = [m for m in mk if m[0] == 'df']
+    if len(a) != len(b) or len(dfm) != len(a):
+        return False
+    bad = [i for i in range(len(a)) if not close(a[i], b[i], RTOL, 100.0)]
+    if not bad:
+        return False           # the driving forces agree: whatever differs is not this class
+    for i in bad:
+        ev = events[dfm[i][3]:dfm[i][4]]
+        cached = any(e[0] == 'L' and len(e[1]) == 1 and e[3] is None and e[2] for e in ev)
+        if not cached or any(e[0] == 'S' for e in ev):
+            return False
+    return True
+
+
 def reset_ref(ref):
     ref.clearCache()
     if hasattr(ref, '_curvature_outputs'):
@@ -867,7 +907,7 @@ def run_sequence(ctx, res, kind, method, qs, inst, use_model, seq_id, progress=N
     `progress` (the replay case of the surrounding guard) always holds the queries issued so far."""
     progress = progress if progress is not None else {}
     from kawin.thermo.Thermodynamics import SampledPointsCache
-    W = mk_therm(kind, method); R = mk_therm(kind, method)
+    W = mk_therm(kind, method); R = ref_therm(kind, method)
     marks = []
     counts = wrap_singles(W, marks, inst)
     ph0 = W.phases[0]
@@ -963,6 +1003,11 @@ def run_sequence(ctx, res, kind, method, qs, inst, use_model, seq_id, progress=N
                 res.count('class:poisoned-cache')
                 what = ('curvatureFactor / getGrowthAndInterfacialComposition at a two-phase condition: a new/cleared object computes the factors, the warmed object — whose cached '
                         'composition-set list lost the precipitate during an earlier query without two-phase result — answered from the output of a previous query')
+            elif tangent_cached_start_class(method, q, vW, vR, mk, events):
+                key = 'tangent-cached-start-other-stationary-point'
+                what = ('getDrivingForce (tangent) on an ordered precipitate: the parallel-tangent local equilibrium started from the cached precipitate '
+                        'composition set converged to another stationary point than the one reached from a fresh sample')
+                res.count('class:tangent-cached-start')
             elif phase_set_mismatch(events, eventsR):
                 key = 'cached-equilibrium-phase-set-differs-from-global'
                 what = ('%s: the two-phase equilibrium computed from the cached composition sets found phases %s, the global equilibrium of a cleared object %s '
@@ -1096,7 +1141,7 @@ def run_sequence(ctx, res, kind, method, qs, inst, use_model, seq_id, progress=N
     # a brand-new object must agree with the warmed one on the last point queries
     fresh_checked = 0
     for q in reversed(qs):
-        if q['name'] in ('df', 'interdiff', 'tracer', 'ic') and fresh_checked < 2:
+        if q['name'] in ('df', 'interdiff', 'tracer', 'ic') and fresh_checked < ctx.n(1, 2):
             N = mk_therm(kind, method, dens)
             inst.log.clear(); inst.on = True
             try:
@@ -1104,16 +1149,19 @@ def run_sequence(ctx, res, kind, method, qs, inst, use_model, seq_id, progress=N
             finally:
                 inst.on = False
             evN = list(inst.log)
-            inst.log.clear(); inst.on = True
+            marks.clear(); inst.log.clear(); inst.on = True
             try:
                 vW, _ = call_public(W, q)
             finally:
                 inst.on = False
-            evW = list(inst.log)
+            evW = list(inst.log); mkW = list(marks)
             ok, worst = vals_close(vW, vN, q['name'])
             if not ok:
                 d1 = {'part': 'thermo', 'object': OBJ_NAME[kind], 'kind': kind, 'method': method, 'sequence': qs, 'failing_query': q}
-                if phase_set_mismatch(evW, evN):
+                if tangent_cached_start_class(method, q, vW, vN, mkW, evW):
+                    res.violate('tangent-cached-start-other-stationary-point',
+                                'getDrivingForce (tangent): cached-start parallel tangent reached another stationary point than a brand-new object', d1, flat(vW)[:8], flat(vN)[:8])
+                elif phase_set_mismatch(evW, evN):
                     res.violate('cached-equilibrium-phase-set-differs-from-global',
                                 '%s: cached two-phase equilibrium found %s, the global equilibrium of a brand-new object %s' % (q['name'], k2_phase_sets(evW), k2_phase_sets(evN)),
                                 d1, flat(vW)[:8], flat(vN)[:8])
@@ -1176,8 +1224,8 @@ def rng_switch(ctx):
 def corr_thermo(ctx, res, use_model=True):
     inst = Instr()
     try:
-        plan = [('B', 'tangent', ctx.n(30, 60)), ('M', 'tangent', ctx.n(30, 60)), ('F', 'tangent', ctx.n(25, 60)), ('A', 'tangent', ctx.n(25, 60)),
-                ('N', 'tangent', ctx.n(15, 40))]
+        plan = [('B', 'tangent', ctx.n(22, 60)), ('M', 'tangent', ctx.n(24, 60)), ('F', 'tangent', ctx.n(18, 60)), ('A', 'tangent', ctx.n(18, 60)),
+                ('N', 'tangent', ctx.n(12, 40))]
         extra = [('B', 'approximate', ctx.n(6, 30)), ('M', 'approximate', ctx.n(6, 30)), ('B', 'sampling', ctx.n(4, 20)),
                  ('M', 'curvature', ctx.n(4, 20)), ('M', 'sampling', ctx.n(0, 20)), ('B', 'curvature', ctx.n(0, 20)),
                  ('A', 'approximate', ctx.n(6, 30)), ('A', 'sampling', ctx.n(4, 20))]
@@ -1229,6 +1277,10 @@ def corr_thermo(ctx, res, use_model=True):
                   dict(name='df', x=0.18, T=N_T[0], rm=False, arr=False), dict(name='df', x=0.05, T=N_T[0], rm=False, arr=False),
                   dict(name='df', x=0.18, T=N_T[0], rm=False, arr=False)]
             seq_guarded(ctx, res, 'N', mth, un, inst, use_model, 'n' + mth); sid += 1
+        un2 = [dict(name='df', x=0.12, T=N_T[0], rm=False, arr=False), dict(name='df', x=0.16, T=N_T[0], rm=False, arr=False),
+               dict(name='df', x=0.18, T=N_T[0], rm=False, arr=False), dict(name='df', x=0.16, T=N_T[0], rm=True, arr=False),
+               dict(name='df', x=0.16, T=N_T[0], rm=False, arr=False)]
+        seq_guarded(ctx, res, 'N', 'tangent', un2, inst, use_model, 'n2'); sid += 1
         seq_guarded(ctx, res, 'M', 'sampling', scripted_SM, inst, use_model, 's5'); sid += 1
         seq_guarded(ctx, res, 'M', 'tangent', scripted_switch, inst, use_model, 's0'); sid += 1
         seq_guarded(ctx, res, 'M', 'tangent', scripted_M, inst, use_model, 's1'); sid += 1
